@@ -65,7 +65,7 @@ Section Inv.
       && (h_rc h <=? max_rc)
       (* the dropped marker is exactly "value destruction has begun" (weak-ptrs only) *)
       && (let dying := match o_vst x with VDropping | VDropped => true | _ => false end in
-          if k_weak K then (implb dying (is_dropped h)) && (implb (is_dropped h) (dying || mem_id o D))
+          if k_weak K then (implb dying (is_dropped h)) && (implb (is_dropped h) (dying || mem_id o D || (h_rc h =? 0)))
           else negb (is_dropped h) || negb (is_live x))
       (* side record present iff the header bit is set; weak count exact; accessible *)
       && Bool.eqb (h_side h) (match o_side x with Some _ => true | None => false end)
@@ -117,7 +117,34 @@ Section Inv.
     let D := dead m in
     forallb (fun '(o, x) => obj_ok E D m o x) (imap (fun o x => (o, x)) (heap m))
     && forallb (loc_ok D m) (handle_locs m)
-    && forallb (fun t => match heap m !! t with Some xt => is_alloc xt | None => false end) E.
+    && forallb (fun t => match heap m !! t with Some xt => is_alloc xt | None => false end) E
+    (* buffered objects are allocated, live and not dying *)
+    && forallb (fun t => match heap m !! t with
+                         | Some xt => is_alloc xt && is_live xt && negb (mem_id t D)
+                         | None => false end) (pc m).
+
+  (** *** Well-formed programs: the contract of the crate's documentation.  A Drop impl must not
+      touch the Cc fields of the value being dropped (they may point to already-dropped members of
+      the same garbage set), so drop scripts contain no location that goes through [Self]'s strong
+      fields and do not use [Self] as a node.  (Own Weak fields are fine.) *)
+  Definition loc_no_self (l : loc) : bool := match l with LFS _ => false | _ => true end.
+  Definition node_no_self (n : nodeloc) : bool := match n with NSelf => false | _ => true end.
+  Definition cmd_no_self (c : cmd) : bool :=
+    match c with
+    | CNew d _ => loc_no_self d
+    | CClone a b | CMove a b => loc_no_self a && loc_no_self b
+    | CDrop l | CMarkAlive l | CFinAgain l | CObs l | CBag l _ => loc_no_self l
+    | CDowngrade l _ => loc_no_self l
+    | CUpgrade _ d => loc_no_self d
+    | CTryUnwrap l _ => loc_no_self l
+    | CNewCyclic d _ _ _ => loc_no_self d
+    | CRegister n _ _ | CBorrow n | CUnborrow n => node_no_self n
+    | _ => true
+    end.
+  Definition wf_prog (P : prog) : bool :=
+    forallb (fun c => match c_drop c with
+                      | Some s => forallb cmd_no_self (default [] (p_scripts P !! s))
+                      | None => true end) (p_classes P).
 
   (** I-count with equality: holds as long as no panic was ever raised (a caught panic may leave a
       count too high, never too low) *)
